@@ -261,6 +261,8 @@ class Ctx:
 
     def oblige(self, state, name, goal, meta=None):
         full = f"{self.prefix}.{name}"
+        if self.contract.options.get("solver"):
+            meta = {**(meta or {}), "solver": self.contract.options["solver"]}
         ob = Obligation(full, state.pc, goal, meta)
         if goal is True:
             # decided by evaluation on this path (no solver needed); still counted
@@ -443,6 +445,7 @@ def verify_contract(prop, contract, registry=None, options=None, sizes=None, onl
                     a = NS({k: wrap(ctx, interp, snap, v) for k, v in args.items()})
                     a.__dict__["old"] = ctx.old_ns
                     a.__dict__["_pc"] = list(snap.pc)
+                    a.__dict__["_ghost"] = dict(snap.ghost)
                     r = wrap(ctx, interp, snap, payload)
                     for ens in contract.ensures:
                         lab, fn = ens[0], ens[1]
@@ -588,6 +591,17 @@ def _solve_one(args):
         return (idx, "undecided", "none", time.time() - t0, None, f"encoding error: {type(e).__name__}: {e}")
     trig = _has_trig(fs)
     short = min(4000, timeout_ms)
+    if ob.meta.get("solver") == "abstract-first":
+        # deep nonlinear terms (unrolled iterations): hypotheses instantiated at the skolem constants, formulas
+        # normalised by z3's simplifier, products/quotients abstracted (sound for unsat) -- before the plain attempt
+        try:
+            fi0 = [z3.simplify(f) for f in ob.formulas(extra_trig=trig, instantiate=True)]
+            r0, _ = _z3_check(T.abstract_nonlinear(fi0), min(timeout_ms, 15000))
+            attempts.append(f"z3[inst+simplify+nl-abstraction]={r0}")
+            if r0 == z3.unsat:
+                return (idx, "discharged", "z3+nl-abstraction", time.time() - t0, None, " ".join(attempts))
+        except Exception as e:
+            attempts.append(f"nl-abstraction-error={type(e).__name__}:{e}")
     r, s = _z3_check(fs, short)
     attempts.append(f"z3={r}")
     if r == z3.unsat:
